@@ -54,6 +54,8 @@ class SDecimal(metaclass=_DecMeta):
         return _D(v, *a)
 
     from_float = staticmethod(lambda f: symx.sym_dec(f) if _bi_isinstance(f, Sym) else _D.from_float(f))
+    sqrt = staticmethod(lambda x, *a: x.sqrt(*a))
+    quantize = staticmethod(lambda x, *a, **k: x.quantize(*a, **k))
 
 
 def SUnitDecimal(v, unit=""):
